@@ -280,6 +280,68 @@ func runC18(c *Check) {
 	}
 	c.Doc("C18-R5", "CT: configuration and genesis files are written by replacing the whole file.")
 	ruleConfigWritersTruncate(c, p)
+	c.Doc("C18-R6", "EO+VP: the flag visitor binds every visited flag itself to the configuration key (BindPFlag on every normal path, with the visited flag), so that a flag given on the command line always outranks the file.")
+	ruleEveryFlagBound(c, p)
+}
+
+// ruleEveryFlagBound (C18-R6): viper ranks a bound, changed flag above the configuration file and
+// everything else (SetDefault, Set from another source) below or beside it; the visitor that the
+// loader runs over all flags must therefore bind each visited flag on every path that returns
+// normally, and bind that flag, not another value.
+func ruleEveryFlagBound(c *Check, p *Prog) {
+	rule := "C18-R6"
+	n := 0
+	for _, fn := range p.Funcs {
+		pk := fnPkg(fn)
+		if pk == nil || pk.Pkg.Path() != configPkg || fn.Parent() == nil {
+			continue
+		}
+		// a closure handed to (*pflag.FlagSet).VisitAll by a function of the loader
+		isVisitor := false
+		for _, b := range fn.Parent().Blocks {
+			for _, in := range b.Instrs {
+				call, ok := in.(*ssa.Call)
+				if !ok || !strings.HasSuffix(commonName(call.Common()), "pflag.FlagSet).VisitAll") {
+					continue
+				}
+				for _, a := range call.Common().Args {
+					if mc, ok := a.(*ssa.MakeClosure); ok && mc.Fn == fn {
+						isVisitor = true
+					}
+				}
+			}
+		}
+		if !isVisitor {
+			continue
+		}
+		g := BuildECFG(p, fn, ExpandOpts{MaxDepth: 0})
+		binds := g.Select(func(x *Node) bool { return strings.HasSuffix(CallName(x), "viper.Viper).BindPFlag") })
+		if len(binds) == 0 {
+			continue // a visitor that is not the binding visitor
+		}
+		c.NoteGraph(g)
+		n++
+		inst := fnShort(fn.Parent()) + " visitor ⟂ binds-every-flag"
+		c.Decide(rule, inst, fnName(fn), p.InstrPos(binds[0].In), "every normal return of the flag visitor passes BindPFlag",
+			"the visitor can return without binding the visited flag (it only contributes a default or nothing): a value given for that flag on the command line does not outrank the configuration file", g,
+			g.PathAvoiding([]*Node{g.Entry}, g.AnyExit(), nodeSet(binds)))
+		okFlag := true
+		for _, bn := range binds {
+			ft := ArgTerm(bn, 2)
+			if ft == nil || ft.Op != "param" {
+				okFlag = false
+			}
+		}
+		if okFlag {
+			c.OK(rule, fnShort(fn.Parent())+" visitor ⟂ binds-the-visited-flag", fnName(fn), p.InstrPos(binds[0].In), "the bound flag is the visitor's parameter", true)
+		} else {
+			c.Bad(rule, fnShort(fn.Parent())+" visitor ⟂ binds-the-visited-flag", fnName(fn), p.InstrPos(binds[0].In), "the flag handed to BindPFlag is not the visited flag", nil)
+		}
+	}
+	if n == 0 {
+		c.Unk(rule, "flag-visitor", "", "", "anchor lost: no VisitAll closure that calls BindPFlag in the configuration package")
+	}
+	c.MinInstances(rule, 2)
 }
 
 // fieldPath: for a term X.A.B.C rooted at a global/call, returns "A.B.C" and the root's name.
